@@ -220,8 +220,8 @@ Lemma live_not_close_done p : live p = true -> p <> PClose /\ p <> PDone.
 Proof. destruct p; cbn; intros; split; congruence. Qed.
 
 Ltac ops_goals :=
+  try (intros _; lia);
   try match goal with
-      | |- true = true -> (0 < S _)%nat => intros _; apply Nat.lt_0_succ
       | H : opsA ?c = _ |- opsA ?c ++ _ = _ => rewrite H; symmetry; apply ops_snoc
       | H : opsB ?c = _ |- opsB ?c ++ _ = _ => rewrite H; symmetry; apply ops_snoc
       end.
@@ -273,7 +273,7 @@ Proof.
       constructor; cbn [clU clD up down closedA closedB wg gauge main th_pc th_acc th_scr ncloseA ncloseB kindA kindB opsA opsB]; auto; ops_goals.
       * rewrite (thread_step_close _ _ _ Epc). exact i_clD0.
       * rewrite thread_step_blocks. exact i_blkD0.
-      * rewrite i_wg0, ?Epc, (thread_step_close _ _ _ Epc). cbn. destruct (pc_is_done (th_pc (up c))); reflexivity.
+      * rewrite i_wg0, ?Epc, (thread_step_close _ _ _ Epc). cbn. lia.
       * intros Hm. specialize (i_main0 Hm). rewrite i_main0. reflexivity.
       * apply tinv_step; exact i_td0.
       * apply thread_step_acc_ok; exact i_ad0.
@@ -292,7 +292,7 @@ Proof.
     destruct (main c) eqn:Em.
     + destruct (wg c) eqn:Ew.
       * constructor; cbn [clU clD up down closedA closedB wg gauge main th_pc th_acc th_scr ncloseA ncloseB kindA kindB opsA opsB]; rewrite ?Ew; auto; ops_goals; try discriminate.
-        rewrite i_gauge0. clear. lia.
+        rewrite i_gauge0. lia.
       * constructor; rewrite ?Em, ?Ew; auto.
     + constructor; cbn [clU clD up down closedA closedB wg gauge main th_pc th_acc th_scr ncloseA ncloseB kindA kindB opsA opsB]; rewrite ?Em; auto; ops_goals; try discriminate.
       intros _. apply i_main0. discriminate.
@@ -637,36 +637,3 @@ Proof.
   - destruct (main c); [destruct (wg c)|..]; split; reflexivity.
 Qed.
 
-Lemma run_keeps_kind : forall s c, kindA (run c s) = kindA c /\ kindB (run c s) = kindB c.
-Proof.
-  induction s as [|t s IH]; intros c; [split; reflexivity|].
-  cbn [run fold_left]. fold (run (step c t) s). destruct (IH (step c t)) as [-> ->]. apply step_keeps_kind.
-Qed.
-
-Lemma close_in_ops k n : (0 < n)%nat -> In CClose (concat (repeat (close_ops k) n)).
-Proof.
-  destruct n as [|n]; [lia|]. intros _. cbn [repeat concat]. apply in_or_app. left.
-  destruct k; cbn; auto.
-Qed.
-
-Lemma relay_torn_down_every_kind ka kb g0 su sd s :
-  let c := run (init_cfg_k ka kb g0 su sd) s in
-  finished c = true ->
-  closedA c = true /\ closedB c = true /\ wg c = O /\ gauge c = g0 /\ main c = MDone /\
-  th_pc (up c) = PDone /\ th_pc (down c) = PDone /\
-  In CClose (opsA c) /\ In CClose (opsB c) /\
-  opsA c = concat (repeat (close_ops ka) (ncloseA c)) /\
-  opsB c = concat (repeat (close_ops kb) (ncloseB c)).
-Proof.
-  intros c F.
-  pose proof (inv_run g0 s _ (inv_init_k ka kb g0 su sd)) as I. fold c in I.
-  destruct (finished_torn_down g0 c I F) as (HA & HB & HW & HG & _ & _ & HM & Pu & Pd).
-  destruct (run_keeps_kind s (init_cfg_k ka kb g0 su sd)) as [Ka Kb].
-  change (kindA (init_cfg_k ka kb g0 su sd)) with ka in Ka.
-  change (kindB (init_cfg_k ka kb g0 su sd)) with kb in Kb.
-  fold c in Ka, Kb. destruct I.
-  rewrite Ka in i_opsA0. rewrite Kb in i_opsB0.
-  repeat split; auto.
-  - rewrite i_opsA0. apply close_in_ops. auto.
-  - rewrite i_opsB0. apply close_in_ops. auto.
-Qed.
